@@ -2039,7 +2039,8 @@ public:
     SBEPP_CPP14_CONSTEXPR random_access_iterator&
         operator+=(difference_type n) noexcept
     {
-        ptr += n * block_length;
+        ptr += static_cast<std::ptrdiff_t>(n)
+               * static_cast<std::ptrdiff_t>(block_length);
         index += n;
         return *this;
     }
@@ -2329,7 +2330,7 @@ public:
     {
         auto dimension = (*this)(get_header_tag{});
         return sbepp::size_bytes(dimension)
-               + dimension.numInGroup().value()
+               + static_cast<std::size_t>(dimension.numInGroup().value())
                      * dimension.blockLength().value();
     }
 
